@@ -43,6 +43,7 @@ METHODS = [
     ("generic_method", "fn m{n}<M{n}: Clone>(&self, g: M{n}) -> M{n};", False),
     ("generic_method_where", "fn m{n}<M{n}>(&self, g: M{n}) -> usize where M{n}: Iterator<Item = u8>;", False),
     ("const_generic_method", "fn m{n}<const K{n}: usize>(&self, a: [u8; K{n}]) -> usize;", False),
+    ("type_and_const_generic_method", "fn m{n}<M{n}: From<u8>, const K{n}: usize>(&self, a: [u8; K{n}]) -> [M{n}; K{n}];", False),
     ("impl_trait_arg", "fn m{n}(&self, a: impl Clone) -> u8;", False),
     ("rpitit", "fn m{n}(&self) -> impl Iterator<Item = u8>;", False),
     ("async_fn", "async fn m{n}(&self, a: u8) -> u8;", False),
